@@ -21,6 +21,16 @@ section; ops say inst=<0|1>).  commit= / rollback= also `fail:<cls>:<i|w|b>`: th
 breaker-acceptable class (Is method / wrapping the sentinel / the bare sentinel).  statement letters r / o / w: a QueryRow
 that finds no row (ErrNotFound returned / ignored) / that the driver faults; t / T: exec / nested Transact through
 NewSessionFromTx(raw tx).  obs: `core=<ret>|-` what the request handed to the breaker returned (recording breaker only).
+round 5 — statement letters b / B: exec / query the driver fails with an error wrapping driver.ErrBadConn (returned; an
+ordinary error inside a transaction: nothing is begun or run again) · k: the driver refuses the Prepare of a statement
+prepared inside the transaction · a / A: QueryRowsPartial (checked) / QueryRowPartial that finds no row (returned) · d:
+RawDB() of a connection made from the session (must be refused; ignored).  commit= / rollback= also `fail:badconn:<i|w|b>`
+(class plain).  end= also panicint | panicstruct | panictnil (values that are neither error nor string) and err:tnil (a
+typed-nil pointer in a non-nil error: an error of class plain).  cfg: cons=<cache|node|conf> (which CachedConn
+constructor).  obs: `cv=<1|0|->` the context the body was handed carries the caller's value / does not / no context;
+log token `O<i>`: statement i reached a connection with no transaction open on it; markers `lost` (a statement's error did
+not reach the body) and `rawdbleak`.  Clauses evaluated on these raw observations: body-gets-callers-context,
+statement-outside-transaction, statement-error-reaches-body, raw-db-refused.
 -/
 import GoZero.Base.Trace
 import GoZero.C14.Spec
